@@ -156,10 +156,20 @@ async fn run_e2e(log: &Log, r: &mut Rng, rounds: u64, seed: u64) {
     let client = net::make_client(&server, net::PASSWORD, PaddingFactory::default(), pool);
     for round in 0..rounds {
         let mut ev: Vec<Value> = Vec::new();
-        let target = UdpSocket::bind("127.0.0.1:0").await.unwrap();
-        let taddr = target.local_addr().unwrap();
+        let target0 = UdpSocket::bind("127.0.0.1:0").await.unwrap();
+        let taddr = target0.local_addr().unwrap();
+        // now and then the target is not up yet when the first datagrams are sent (they are lost, as UDP allows);
+        // what is sent once it is up must arrive
+        let late = round % 3 == 2;
+        let mut target_opt = if late { drop(target0); None } else { Some(target0) };
         let Ok(Ok(local)) = tokio::time::timeout(Duration::from_secs(5), client.create_udp_proxy("127.0.0.1:0", taddr)).await else { continue };
         let app = UdpSocket::bind("127.0.0.1:0").await.unwrap();
+        if late {
+            for _ in 0..2 { let _ = app.send_to(b"nobody is listening yet", local).await; tokio::time::sleep(Duration::from_millis(40)).await; }
+            target_opt = UdpSocket::bind(taddr).await.ok();
+            tokio::time::sleep(Duration::from_millis(20)).await;
+        }
+        let Some(target) = target_opt else { continue };
         let (ku, kd) = (pgen::key(seed, round, 7, 1), pgen::key(seed, round, 7, 2));
         let (mut ou, mut od) = (0u64, 0u64);
         for _ in 0..r.range(1, 12) {
